@@ -49,13 +49,13 @@ def Pred.holds : Pred → Int → Bool
 
 inductive Cond where
   | eq (v : Val)          -- `x=V` : `==`
-  | is_ (v : Val)         -- receiver constraint of a bound method (see C13): still `==` in the code
+  | is_ (v : Val)         -- receiver constraint of a bound method (`_Receiver`): identity
   | pred (p : Pred)       -- `x~p`
   deriving DecidableEq, Repr, Inhabited
 
 def Cond.holds : Cond → Val → Bool
   | .eq w, v => w.v == v.v
-  | .is_ w, v => w.v == v.v
+  | .is_ w, v => w.oid == v.oid
   | .pred p, v => p.holds v.v
 
 /-- a capture element of a resolved selector -/
